@@ -566,6 +566,9 @@ func exploreCrashes(ps *spec.Plan, r *rand.Rand, secondOneIn int, res *CaseResul
 }
 
 func c09Run(c *Ctx, idx int) CaseResult {
+	if idx >= replayCases(c.Tier)+killCases(c.Tier) {
+		return cosmosCrashCase("C09", c, idx)
+	}
 	if idx >= replayCases(c.Tier) {
 		return realKillCase("C09", c, idx)
 	}
@@ -607,6 +610,9 @@ func c09Run(c *Ctx, idx int) CaseResult {
 }
 
 func c10Run(c *Ctx, idx int) CaseResult {
+	if idx >= replayCases(c.Tier)+killCases(c.Tier) {
+		return cosmosCrashCase("C10", c, idx)
+	}
 	if idx >= replayCases(c.Tier) {
 		return realKillCase("C10", c, idx)
 	}
@@ -680,11 +686,19 @@ func replayCases(tier string) int {
 	return 18
 }
 
+func killCases(tier string) int {
+	if tier == "thorough" {
+		return 200
+	}
+	return 8
+}
+
+// replay cases, then real-kill cases, then cosmosdb cases
 func crashCases(tier string) int {
 	if tier == "thorough" {
-		return replayCases(tier) + 200
+		return replayCases(tier) + killCases(tier) + 40
 	}
-	return replayCases(tier) + 8
+	return replayCases(tier) + killCases(tier) + 3
 }
 
 // secondOneIn: one crash point in n is followed by every second crash during its recovery.
